@@ -125,8 +125,9 @@ theorem Shape.floats (w : WalkCfg) (fs : List Branch) : ∀ (st : WState) (k : N
     rw [show k + (rest.length + 1) = k + 1 + rest.length by omega]
     exact this
 
-/-- **Every written glycan**: one component for the main glycan plus one per floating part. -/
-theorem components_walkStart (w : WalkCfg) (s : Start) : components (walkStart w s) = 1 + s.floats.length := by
+/-- **Shape of every walked graph**, floating parts included: edges in insertion order lead to strictly increasing children (no node
+    is a child twice), each above its parent; nodes minus edges = 1 + number of floating parts. -/
+theorem shape_walkStart (w : WalkCfg) (s : Start) : Shape (walkStart w s) (s.floats.length + 1) := by
   rw [walkStart_eq_denStart]
   unfold denStart
   have h0 : Shape WState.init 0 := ⟨by simp [WState.init], by simp [WState.init], by simp [WState.init]⟩
@@ -146,9 +147,13 @@ theorem components_walkStart (w : WalkCfg) (s : Start) : components (walkStart w
   simp only at hroot hid hlen
   subst hid
   cases hb : s.begin.branch with
-  | none => simp only [hr]; rw [hroot.components]; omega
+  | none => simpa [hr] using hroot
   | some br =>
     simp only [hr]
-    rw [(Shape.flatten w (den br .nil) st.nodes.length st1 _ hroot (by omega)).1.components]; omega
+    exact (Shape.flatten w (den br .nil) st.nodes.length st1 _ hroot (by omega)).1
+
+/-- **Every written glycan**: one component for the main glycan plus one per floating part. -/
+theorem components_walkStart (w : WalkCfg) (s : Start) : components (walkStart w s) = 1 + s.floats.length := by
+  rw [(shape_walkStart w s).components]; omega
 
 end Gly
